@@ -5,6 +5,7 @@ FAMILIES = {
     "str": {"src": "scen/str.cpp", "parts": 5},
     "set": {"src": "scen/set.cpp", "parts": 2},
     "ovx": {"src": "scen/ovx.cpp", "parts": 3},
+    "bits": {"src": "scen/bits.cpp", "parts": 3},
 }
 
 SAN = ["-O1", "-g1", "-fsanitize=address,undefined", "-fno-sanitize-recover=undefined", "-fno-omit-frame-pointer"]
@@ -75,8 +76,21 @@ PROPS = {
         "quick": {"flavours": ["chk-O2"], "runs": 300000, "max_seconds": 40},
         "thorough": {"flavours": ["chk-O2", "chk-asan", "off-asan", "chk-O0"], "runs": 10000000, "max_seconds": 240},
     },
+    "C17": {
+        "families": ["bits"],
+        "level": "exploration",
+        "rule": "one run = one seeded plan over a pool of 1-3 bitsets of one scenario (bitset<W> or basic_bitset<W,Word>, W in "
+                "{1,7,8,9,31,32,33,63,64,65,127,128,129}, Word in uint8/16/32/64) mixing whole-set and single-bit operations, proxy "
+                "assignment, compound and binary operators and construction from integers and strings; after every step every "
+                "position, count/all/any/none, equality against every pool object, to_ulong/to_ullong and to_string are compared "
+                "with std::bitset<W>; non-trivial = >=3 state-changing steps and >=1 boundary event (became all-ones / all-zero, "
+                "fault fired, cross-object step); distinct = distinct event-log hashes of non-trivial runs",
+        "assumptions": COMMON_ASSUME,
+        "quick": {"flavours": ["chk-O2"], "runs": 300000, "max_seconds": 40},
+        "thorough": {"flavours": ["chk-O2", "chk-asan", "off-asan", "chk-O0"], "runs": 8000000, "max_seconds": 240},
+    },
     "C02": {
-        "families": ["vec", "str", "set", "ovx"],
+        "families": ["vec", "str", "set", "ovx", "bits"],
         "level": "exploration",
         "rule": "one run = one seeded plan of valid (and capacity-refusal) steps executed twice under two different garbage "
                 "patterns in the arena, under ASan+UBSan, with guard zones, exact-size heap argument buffers and the allocator "
@@ -96,7 +110,7 @@ PROPS = {
         "thorough": {"flavours": ["chk-O2", "chk-asan", "off-asan", "chk-O0"], "runs": 12000000, "max_seconds": 240},
     },
     "C05": {
-        "families": ["vec", "str", "set", "ovx"],
+        "families": ["vec", "str", "set", "ovx", "bits"],
         "level": "fault_enumeration",
         "rule": "misuse faults (a precondition-violating call at the boundary, boundary+1 and max) are attached to seeded steps "
                 "of container histories; the replaced handler must be entered with a location before any damage and, for "
@@ -160,6 +174,17 @@ MANIFEST_TEXT = {
                 "semantics (std::expected is C++23 and the suite is built as C++20). How a state is reached (number of special-member "
                 "calls) is not compared.",
         "ref": "DESIGN.md section 3 C07",
+    },
+    "C17": {
+        "text": "Seeded history simulation of etl::bitset<W> and basic_bitset<W,Word> for the thirteen widths around the word "
+                "boundaries and four word types against std::bitset<W>: whole-set and single-bit set/reset/flip, proxy assignment / "
+                "copy / flip, &= |= ^= (also with itself), binary & | ^ and ~, construction from integers and from string_view / "
+                "C strings with pos, n and custom characters; after every step all observers that would expose dirty padding bits "
+                "(count, all, any, none, ==, to_ulong/to_ullong, to_string) are compared. Faults: position >= size and over-long "
+                "strings trapped mid-history, creation in dirty memory.",
+        "note": "Thinnest fit of the technique (no resource to exhaust, no foreign code): it is claimed because the property is about "
+                "histories in which one operation corrupts padding and a later one observes it. Trusts std::bitset.",
+        "ref": "DESIGN.md section 3 C17",
     },
     "C09": {
         "text": "Seeded history simulation of static_set and flat_set (over static_vector) with int and instrumented keys, capacities "
